@@ -1,5 +1,7 @@
 /-
-  Invariants of the ARP hunt machine (Model/ArpHunt.lean) and the budgets of a blocked loop.
+  Invariants of the ARP hunt machine (Model/ArpHunt.lean): the mutex discipline (`Inv`), silence for a
+  MAC that is not in the hunt list (`quiet_run`) and after Close (`closed_run`), and the restoring
+  request of a stopped loop (`blocked_run`).
 -/
 import PacketVerif.Model.ArpHunt
 namespace PV.Lemmas.ArpHunt
@@ -20,116 +22,274 @@ theorem setPc_other (s : State) (i j : Nat) (pc : Pc) (h : j ≠ i) : (setPc s i
 @[simp] theorem setPc_closed (s : State) (i : Nat) (pc : Pc) : (setPc s i pc).closed = s.closed := rfl
 @[simp] theorem setPc_nloops (s : State) (i : Nat) (pc : Pc) : (setPc s i pc).nloops = s.nloops := rfl
 @[simp] theorem setPc_started (s : State) (i : Nat) (pc : Pc) : (setPc s i pc).started = s.started := rfl
-@[simp] theorem setPc_replies (s : State) (i : Nat) (pc : Pc) : (setPc s i pc).replies = s.replies := rfl
+@[simp] theorem setPc_holder (s : State) (i : Nat) (pc : Pc) : (setPc s i pc).holder = s.holder := rfl
 
 structure Inv (s : State) : Prop where
   nodup : s.hunt.Nodup
   started : ∀ i, (s.loops i).pc ≠ .done → (s.loops i).mac ∈ s.started
   huntStarted : ∀ m ∈ s.hunt, m ∈ s.started
-  repliesStarted : ∀ m ∈ s.replies, m ∈ s.started
   fresh : ∀ i, s.nloops ≤ i → (s.loops i).pc = .done
+  /-- a loop about to write a forged announcement holds the mutex, and its lookup still holds: its
+      MAC is hunted and the handler is open -/
+  forgeOK : ∀ i, (s.loops i).pc = .forge → s.holder = some (.loop i) ∧ (s.loops i).mac ∈ s.hunt ∧ s.closed = false
+  /-- a loop about to write the restoring request holds the mutex; its MAC is not hunted -/
+  restoreOK : ∀ i, (s.loops i).pc = .restore → s.holder = some (.loop i) ∧ (s.loops i).mac ∉ s.hunt ∧ s.closed = false
+  holderLoop : ∀ i, s.holder = some (.loop i) → (s.loops i).pc = .forge ∨ (s.loops i).pc = .restore
+  /-- a forged reply about to be written goes to a hunted MAC -/
+  holderRx : ∀ m, s.holder = some (.rx m) → m ∈ s.hunt
 
 theorem inv_init : Inv {} := by constructor <;> simp
 
-/-- a loop moves from a live pc to any pc -/
-theorem inv_setPc {s : State} (h : Inv s) (i : Nat) (pc : Pc) (hl : (s.loops i).pc ≠ .done) : Inv (setPc s i pc) := by
-  obtain ⟨h1, h2, h3, h4, h5⟩ := h
-  refine ⟨h1, ?_, h3, h4, ?_⟩
+/-- while the mutex is free no loop is between its lookup and its frame -/
+theorem free_pcs {s : State} (h : Inv s) (hf : s.holder = none) (i : Nat) :
+    (s.loops i).pc ≠ .forge ∧ (s.loops i).pc ≠ .restore := by
+  constructor
+  · intro hp; have := (h.forgeOK i hp).1; rw [hf] at this; cases this
+  · intro hp; have := (h.restoreOK i hp).1; rw [hf] at this; cases this
+
+/-- hunt list / closed flag change while the mutex is free; loops are untouched -/
+theorem inv_free_change {s s' : State} (h : Inv s) (hf : s.holder = none) (hl : s'.loops = s.loops)
+    (hn : s'.nloops = s.nloops) (hs : s'.started = s.started) (hho : s'.holder = none)
+    (hnd : s'.hunt.Nodup) (hh : ∀ m ∈ s'.hunt, m ∈ s.hunt) : Inv s' := by
+  refine ⟨hnd, ?_, ?_, ?_, ?_, ?_, ?_, ?_⟩
+  · intro i hi; rw [hl] at hi ⊢; rw [hs]; exact h.started i hi
+  · intro m hm; rw [hs]; exact h.huntStarted m (hh m hm)
+  · intro i hi; rw [hl]; rw [hn] at hi; exact h.fresh i hi
+  · intro i hp; rw [hl] at hp; exact absurd hp (free_pcs h hf i).1
+  · intro i hp; rw [hl] at hp; exact absurd hp (free_pcs h hf i).2
+  · intro i hp; rw [hho] at hp; cases hp
+  · intro m hp; rw [hho] at hp; cases hp
+
+/-- loop `i` moves between states that hold no mutex (check / wait / done); holder unchanged -/
+theorem inv_setPc_plain {s : State} (h : Inv s) (i : Nat) (pc : Pc) (hl : (s.loops i).pc ≠ .done)
+    (hold1 : (s.loops i).pc ≠ .forge) (hold2 : (s.loops i).pc ≠ .restore)
+    (hnew1 : pc ≠ .forge) (hnew2 : pc ≠ .restore) : Inv (setPc s i pc) := by
+  refine ⟨h.nodup, ?_, h.huntStarted, ?_, ?_, ?_, ?_, h.holderRx⟩
   · intro j hj
     simp only [setPc_mac, setPc_started]
     by_cases hji : j = i
-    · subst hji; exact h2 j hl
-    · rw [setPc_other _ _ _ _ hji] at hj; exact h2 j hj
+    · subst hji; exact h.started j hl
+    · rw [setPc_other _ _ _ _ hji] at hj; exact h.started j hj
   · intro j hj
     by_cases hji : j = i
-    · subst hji; exact absurd (h5 j hj) hl
-    · rw [setPc_other _ _ _ _ hji]; exact h5 j hj
+    · subst hji; exact absurd (h.fresh j hj) hl
+    · rw [setPc_other _ _ _ _ hji]; exact h.fresh j hj
+  · intro j hp
+    by_cases hji : j = i
+    · subst hji; simp at hp; exact absurd hp hnew1
+    · rw [setPc_other _ _ _ _ hji] at hp ⊢; exact h.forgeOK j hp
+  · intro j hp
+    by_cases hji : j = i
+    · subst hji; simp at hp; exact absurd hp hnew2
+    · rw [setPc_other _ _ _ _ hji] at hp ⊢; exact h.restoreOK j hp
+  · intro j hp
+    simp only [setPc_holder] at hp
+    by_cases hji : j = i
+    · subst hji
+      rcases h.holderLoop j hp with h1 | h1
+      · exact absurd h1 hold1
+      · exact absurd h1 hold2
+    · rw [setPc_other _ _ _ _ hji]; exact h.holderLoop j hp
+
+/-- loop `i` takes the mutex at its check (pc := forge / restore, holder := loop i) -/
+theorem inv_take {s : State} (h : Inv s) (i : Nat) (pc : Pc) (hc : (s.loops i).pc = .check) (hf : s.holder = none)
+    (hpc : pc = .forge ∨ pc = .restore)
+    (hfo : pc = .forge → (s.loops i).mac ∈ s.hunt ∧ s.closed = false)
+    (hre : pc = .restore → (s.loops i).mac ∉ s.hunt ∧ s.closed = false) :
+    Inv { setPc s i pc with holder := some (.loop i) } := by
+  have hl : (s.loops i).pc ≠ .done := by rw [hc]; simp
+  refine ⟨h.nodup, ?_, h.huntStarted, ?_, ?_, ?_, ?_, ?_⟩
+  · intro j hj
+    show ((setPc s i pc).loops j).mac ∈ s.started
+    rw [setPc_mac]
+    by_cases hji : j = i
+    · subst hji; exact h.started j hl
+    · have : ((setPc s i pc).loops j).pc ≠ .done := hj
+      rw [setPc_other _ _ _ _ hji] at this; exact h.started j this
+  · intro j hj
+    show ((setPc s i pc).loops j).pc = .done
+    by_cases hji : j = i
+    · subst hji; exact absurd (h.fresh j hj) hl
+    · rw [setPc_other _ _ _ _ hji]; exact h.fresh j hj
+  · intro j hp
+    have hp' : ((setPc s i pc).loops j).pc = .forge := hp
+    show some (Holder.loop i) = some (Holder.loop j) ∧ ((setPc s i pc).loops j).mac ∈ s.hunt ∧ s.closed = false
+    by_cases hji : j = i
+    · subst hji
+      simp at hp'
+      rw [setPc_mac]
+      exact ⟨rfl, hfo hp'⟩
+    · rw [setPc_other _ _ _ _ hji] at hp'
+      exact absurd hp' (free_pcs h hf j).1
+  · intro j hp
+    have hp' : ((setPc s i pc).loops j).pc = .restore := hp
+    show some (Holder.loop i) = some (Holder.loop j) ∧ ((setPc s i pc).loops j).mac ∉ s.hunt ∧ s.closed = false
+    by_cases hji : j = i
+    · subst hji
+      simp at hp'
+      rw [setPc_mac]
+      exact ⟨rfl, hre hp'⟩
+    · rw [setPc_other _ _ _ _ hji] at hp'
+      exact absurd hp' (free_pcs h hf j).2
+  · intro j hp
+    have hp' : some (Holder.loop i) = some (Holder.loop j) := hp
+    cases hp'
+    show ((setPc s i pc).loops i).pc = .forge ∨ ((setPc s i pc).loops i).pc = .restore
+    simpa using hpc
+  · intro m hp
+    have hp' : some (Holder.loop i) = some (Holder.rx m) := hp
+    cases hp'
+
+/-- loop `i` writes its frame and releases the mutex -/
+theorem inv_release {s : State} (h : Inv s) (i : Nat) (pc : Pc) (hh : s.holder = some (.loop i))
+    (hl : (s.loops i).pc ≠ .done) (hnew1 : pc ≠ .forge) (hnew2 : pc ≠ .restore) :
+    Inv { setPc s i pc with holder := none } := by
+  have hothers : ∀ j, j ≠ i → (s.loops j).pc ≠ .forge ∧ (s.loops j).pc ≠ .restore := by
+    intro j hji
+    constructor
+    · intro hp; have := (h.forgeOK j hp).1; rw [hh] at this; simp at this; exact hji this.symm
+    · intro hp; have := (h.restoreOK j hp).1; rw [hh] at this; simp at this; exact hji this.symm
+  refine ⟨h.nodup, ?_, h.huntStarted, ?_, ?_, ?_, ?_, ?_⟩
+  · intro j hj
+    show ((setPc s i pc).loops j).mac ∈ s.started
+    rw [setPc_mac]
+    by_cases hji : j = i
+    · subst hji; exact h.started j hl
+    · have : ((setPc s i pc).loops j).pc ≠ .done := hj
+      rw [setPc_other _ _ _ _ hji] at this; exact h.started j this
+  · intro j hj
+    show ((setPc s i pc).loops j).pc = .done
+    by_cases hji : j = i
+    · subst hji; exact absurd (h.fresh j hj) hl
+    · rw [setPc_other _ _ _ _ hji]; exact h.fresh j hj
+  · intro j hp
+    have hp' : ((setPc s i pc).loops j).pc = .forge := hp
+    by_cases hji : j = i
+    · subst hji; simp at hp'; exact absurd hp' hnew1
+    · rw [setPc_other _ _ _ _ hji] at hp'; exact absurd hp' (hothers j hji).1
+  · intro j hp
+    have hp' : ((setPc s i pc).loops j).pc = .restore := hp
+    by_cases hji : j = i
+    · subst hji; simp at hp'; exact absurd hp' hnew2
+    · rw [setPc_other _ _ _ _ hji] at hp'; exact absurd hp' (hothers j hji).2
+  · intro j hp; cases hp
+  · intro m hp; cases hp
 
 theorem inv_step {s s' : State} {e : Event} {o : Out} (h : Inv s) (hs : step s e = some (s', o)) : Inv s' := by
   cases e with
   | rxOther => simp only [step] at hs; cases hs; exact h
   | rxProbe a b c d => simp only [step] at hs; split at hs <;> (cases hs; exact h)
   | close =>
-    simp only [step] at hs; cases hs
-    exact ⟨h.nodup, h.started, h.huntStarted, h.repliesStarted, h.fresh⟩
+    simp only [step] at hs
+    split at hs
+    · rename_i hf; cases hs
+      exact inv_free_change h hf rfl rfl rfl hf h.nodup (fun _ hm => hm)
+    · cases hs
   | stopHunt mac _ip =>
-    simp only [step] at hs; cases hs
-    exact ⟨h.nodup.erase mac, h.started, fun m hm => h.huntStarted m (List.mem_of_mem_erase hm),
-      h.repliesStarted, h.fresh⟩
+    simp only [step] at hs
+    split at hs
+    · rename_i hf; cases hs
+      exact inv_free_change h hf rfl rfl rfl hf (h.nodup.erase mac) (fun _ hm => List.mem_of_mem_erase hm)
+    · cases hs
   | rxRequest _esrc smac tr =>
     simp only [step] at hs
     split at hs
-    · rename_i hc
-      cases hs
-      refine ⟨h.nodup, h.started, h.huntStarted, ?_, h.fresh⟩
-      intro m hm
-      simp at hm
-      rcases hm with rfl | hm
-      · exact h.huntStarted _ hc.1
-      · exact h.repliesStarted m hm
-    · cases hs; exact h
+    · rename_i hf
+      split at hs
+      · rename_i hc
+        cases hs
+        refine ⟨h.nodup, h.started, h.huntStarted, h.fresh, ?_, ?_, ?_, ?_⟩
+        · intro i hp; exact absurd hp (free_pcs h hf i).1
+        · intro i hp; exact absurd hp (free_pcs h hf i).2
+        · intro i hp; cases hp
+        · intro m hp; cases hp; exact hc.1
+      · cases hs; exact h
+    · cases hs
   | reply smac =>
     simp only [step] at hs
     split at hs
-    · cases hs
-      exact ⟨h.nodup, h.started, h.huntStarted, fun m hm => h.repliesStarted m (List.mem_of_mem_erase hm), h.fresh⟩
+    · rename_i hh
+      cases hs
+      refine ⟨h.nodup, h.started, h.huntStarted, h.fresh, ?_, ?_, ?_, ?_⟩
+      · intro i hp; have := (h.forgeOK i hp).1; rw [hh] at this; cases this
+      · intro i hp; have := (h.restoreOK i hp).1; rw [hh] at this; cases this
+      · intro i hp; cases hp
+      · intro m hp; cases hp
     · cases hs
   | startHunt mac v =>
     simp only [step] at hs
     split at hs
     · cases hs; exact h
     · split at hs
-      · cases hs; exact h
-      · rename_i hnm
-        cases hs
-        obtain ⟨h1, h2, h3, h4, h5⟩ := h
-        refine ⟨List.nodup_cons.2 ⟨hnm, h1⟩, ?_, ?_, ?_, ?_⟩
-        · intro i hi
-          by_cases hi' : i = s.nloops
-          · subst hi'; simp
-          · simp only [updLoop_other _ _ _ _ hi'] at hi ⊢
-            exact List.mem_cons_of_mem _ (h2 i hi)
-        · intro m hm
-          simp at hm
-          rcases hm with rfl | hm
-          · simp
-          · exact List.mem_cons_of_mem _ (h3 m hm)
-        · intro m hm; exact List.mem_cons_of_mem _ (h4 m hm)
-        · intro i hi
-          have : i ≠ s.nloops := by simp at hi; omega
-          simp only [updLoop_other _ _ _ _ this]
-          exact h5 i (by simp at hi; omega)
+      · cases hs
+      · rename_i hf
+        have hf' : s.holder = none := by simpa [free] using hf
+        split at hs
+        · cases hs; exact h
+        · rename_i hnm
+          cases hs
+          have hfr : (s.loops s.nloops).pc = .done := h.fresh _ (Nat.le_refl _)
+          refine ⟨List.nodup_cons.2 ⟨hnm, h.nodup⟩, ?_, ?_, ?_, ?_, ?_, ?_, ?_⟩
+          · intro i hi
+            by_cases hi' : i = s.nloops
+            · subst hi'; simp
+            · simp only [updLoop_other _ _ _ _ hi'] at hi ⊢
+              exact List.mem_cons_of_mem _ (h.started i hi)
+          · intro m hm
+            simp at hm
+            rcases hm with rfl | hm
+            · simp
+            · exact List.mem_cons_of_mem _ (h.huntStarted m hm)
+          · intro i hi
+            have : i ≠ s.nloops := by simp at hi; omega
+            simp only [updLoop_other _ _ _ _ this]
+            exact h.fresh i (by simp at hi; omega)
+          · intro i hp
+            by_cases hi' : i = s.nloops
+            · subst hi'; simp at hp
+            · simp only [updLoop_other _ _ _ _ hi'] at hp; exact absurd hp (free_pcs h hf' i).1
+          · intro i hp
+            by_cases hi' : i = s.nloops
+            · subst hi'; simp at hp
+            · simp only [updLoop_other _ _ _ _ hi'] at hp; exact absurd hp (free_pcs h hf' i).2
+          · intro i hp; rw [hf'] at hp; cases hp
+          · intro m hp; rw [hf'] at hp; cases hp
   | check i =>
     simp only [step] at hs
     split at hs
-    · rename_i hc; cases hs; exact inv_setPc h i _ (by rw [hc]; simp)
-    · cases hs
-  | gate i =>
-    simp only [step] at hs
-    split at hs
-    · rename_i b hc
-      split at hs <;> (cases hs; exact inv_setPc h i _ (by rw [hc]; simp))
-    · cases hs
-  | exitRead i =>
-    simp only [step] at hs
-    split at hs
-    · rename_i hc
-      split at hs <;> (cases hs; exact inv_setPc h i _ (by rw [hc]; simp))
+    · rename_i hcf
+      obtain ⟨hc, hf⟩ := hcf
+      have hl : (s.loops i).pc ≠ .done := by rw [hc]; simp
+      split at hs
+      · cases hs
+        exact inv_setPc_plain h i _ hl (by rw [hc]; simp) (by rw [hc]; simp) (by simp) (by simp)
+      · rename_i hcl
+        have hcl' : s.closed = false := by simpa using hcl
+        split at hs
+        · rename_i hm
+          cases hs
+          exact inv_take h i .forge hc hf (Or.inl rfl) (fun _ => ⟨hm, hcl'⟩) (fun hp => by cases hp)
+        · rename_i hm
+          cases hs
+          exact inv_take h i .restore hc hf (Or.inr rfl) (fun hp => by cases hp) (fun _ => ⟨hm, hcl'⟩)
     · cases hs
   | restore i =>
     simp only [step] at hs
     split at hs
-    · rename_i hc; cases hs; exact inv_setPc h i _ (by rw [hc]; simp)
+    · rename_i hc; cases hs
+      exact inv_release h i .done (h.restoreOK i hc).1 (by rw [hc]; simp) (by simp) (by simp)
     · cases hs
   | forge i =>
     simp only [step] at hs
     split at hs
-    · rename_i hc; cases hs; exact inv_setPc h i _ (by rw [hc]; simp)
+    · rename_i hc; cases hs
+      exact inv_release h i .wait (h.forgeOK i hc).1 (by rw [hc]; simp) (by simp) (by simp)
     · cases hs
   | wake i =>
     simp only [step] at hs
     split at hs
-    · rename_i hc; cases hs; exact inv_setPc h i _ (by rw [hc]; simp)
+    · rename_i hc; cases hs
+      exact inv_setPc_plain h i _ (by rw [hc]; simp) (by rw [hc]; simp) (by rw [hc]; simp) (by simp) (by simp)
     · cases hs
 
 theorem inv_run {s s' : State} {tr : List Event} {os : List Out} (h : Inv s)
@@ -151,20 +311,245 @@ theorem inv_run {s s' : State} {tr : List Event} {os : List Out} (h : Inv s)
         cases hr
         exact ih (inv_step h hs) hr2
 
-/-! ### budgets of a blocked loop -/
+/-- a run over a concatenation splits at the seam; the outputs are produced one per event -/
+theorem run_append (a b : List Event) (s s' : State) (os : List Out)
+    (h : run s (a ++ b) = some (s', os)) :
+    ∃ s1 os1 os2, run s a = some (s1, os1) ∧ run s1 b = some (s', os2) ∧ os = os1 ++ os2 ∧
+      os1.length = a.length := by
+  induction a generalizing s os with
+  | nil => exact ⟨s, [], os, rfl, h, rfl, rfl⟩
+  | cons e es ih =>
+    simp only [List.cons_append, run] at h
+    cases hs : step s e with
+    | none => simp [hs] at h
+    | some p =>
+      obtain ⟨s1, o⟩ := p
+      simp only [hs] at h
+      cases hr2 : run s1 (es ++ b) with
+      | none => simp [hr2] at h
+      | some q =>
+        obtain ⟨s2, os2⟩ := q
+        simp only [hr2] at h
+        cases h
+        obtain ⟨t1, o1, o2, r1, r2, he, hlen⟩ := ih s1 os2 hr2
+        refine ⟨t1, o :: o1, o2, ?_, r2, by simp [he], by simp [hlen]⟩
+        simp [run, hs, r1]
 
-/-- forged announcements the loop may still write without passing a check that finds it hunted -/
-def forgeBudget (s : State) (i : Nat) : Nat :=
-  match (s.loops i).pc with
-  | .forge => 1
-  | .gate true => if s.closed then 0 else 1
-  | _ => 0
+/-- splitting a run at a distinguished event -/
+theorem run_split (pre post : List Event) (e : Event) (s : State) (os : List Out)
+    (h : run {} (pre ++ [e] ++ post) = some (s, os)) :
+    ∃ s0 s1 o os1 os2, run {} pre = some (s0, os1) ∧ step s0 e = some (s1, o) ∧
+      run s1 post = some (s, os2) ∧ os.drop (pre.length + 1) = os2 ∧ os[pre.length]? = some o := by
+  rw [List.append_assoc] at h
+  obtain ⟨s0, os1, osr, r1, r2, he, hlen⟩ := run_append pre ([e] ++ post) {} s os h
+  simp only [List.singleton_append, run] at r2
+  cases hs : step s0 e with
+  | none => simp [hs] at r2
+  | some q =>
+    obtain ⟨s1, o⟩ := q
+    simp only [hs] at r2
+    cases hr2 : run s1 post with
+    | none => simp [hr2] at r2
+    | some q2 =>
+      obtain ⟨s2, os2⟩ := q2
+      simp only [hr2] at r2
+      cases r2
+      refine ⟨s0, s1, o, os1, os2, r1, hs, hr2, ?_, ?_⟩
+      · subst he; rw [← hlen]; simp
+      · subst he; rw [← hlen]; simp
 
-/-- restoring requests the loop may still write -/
-def restoreBudget (s : State) (i : Nat) : Nat :=
-  match (s.loops i).pc with
-  | .done => 0
-  | _ => 1
+/-! ### silence -/
+
+/-- no StartHunt for `mac` that would be accepted -/
+def NoRestart (mac : Bytes) (tr : List Event) : Prop := ∀ e ∈ tr, e ≠ .startHunt mac true
+
+/-- **a MAC that is not in the hunt list gets no forged packet**, and stays out of the list until a
+    StartHunt for it is accepted: every forged frame is written inside the critical section whose
+    lookup found the MAC in the list -/
+theorem quiet_step {mac : Bytes} {s s' : State} {e : Event} {o : Out} (h : Inv s) (hq : mac ∉ s.hunt)
+    (hs : step s e = some (s', o)) (hn : e ≠ .startHunt mac true) :
+    mac ∉ s'.hunt ∧ forgedTo mac o = false := by
+  cases e with
+  | rxOther => simp only [step] at hs; cases hs; exact ⟨hq, rfl⟩
+  | rxProbe a b c d => simp only [step] at hs; split at hs <;> (cases hs; exact ⟨hq, rfl⟩)
+  | close =>
+    simp only [step] at hs
+    split at hs
+    · cases hs; exact ⟨hq, rfl⟩
+    · cases hs
+  | stopHunt m _ip =>
+    simp only [step] at hs
+    split at hs
+    · cases hs; exact ⟨fun hm => hq (List.mem_of_mem_erase hm), rfl⟩
+    · cases hs
+  | rxRequest _esrc smac tr =>
+    simp only [step] at hs
+    split at hs
+    · split at hs <;> (cases hs; exact ⟨hq, rfl⟩)
+    · cases hs
+  | reply smac =>
+    simp only [step] at hs
+    split at hs
+    · rename_i hh
+      cases hs
+      refine ⟨hq, ?_⟩
+      have hm := h.holderRx smac hh
+      simp only [forgedTo, decide_eq_false_iff_not]
+      intro he; subst he; exact hq hm
+    · cases hs
+  | startHunt m v =>
+    simp only [step] at hs
+    split at hs
+    · cases hs; exact ⟨hq, rfl⟩
+    · rename_i hv
+      split at hs
+      · cases hs
+      · split at hs
+        · cases hs; exact ⟨hq, rfl⟩
+        · cases hs
+          refine ⟨?_, rfl⟩
+          intro hm
+          simp at hm
+          rcases hm with hm | hm
+          · subst hm
+            have hv' : v = true := by simpa using hv
+            subst hv'
+            exact hn rfl
+          · exact hq hm
+  | check i =>
+    simp only [step] at hs
+    split at hs
+    · split at hs
+      · cases hs; exact ⟨hq, rfl⟩
+      · split at hs <;> (cases hs; exact ⟨hq, rfl⟩)
+    · cases hs
+  | restore i =>
+    simp only [step] at hs
+    split at hs
+    · cases hs; exact ⟨hq, rfl⟩
+    · cases hs
+  | forge i =>
+    simp only [step] at hs
+    split at hs
+    · rename_i hc
+      cases hs
+      refine ⟨hq, ?_⟩
+      have hm := (h.forgeOK i hc).2.1
+      simp only [forgedTo, decide_eq_false_iff_not]
+      intro he; rw [he] at hm; exact hq hm
+    · cases hs
+  | wake i =>
+    simp only [step] at hs
+    split at hs
+    · cases hs; exact ⟨hq, rfl⟩
+    · cases hs
+
+theorem quiet_run : ∀ (tr : List Event) (mac : Bytes) (s s' : State) (os : List Out),
+    Inv s → mac ∉ s.hunt → NoRestart mac tr → run s tr = some (s', os) → forgedCount mac os = 0
+  | [], _, _, _, _, _, _, _, hr => by simp [run] at hr; obtain ⟨_, rfl⟩ := hr; rfl
+  | e :: es, mac, s, s', os, hI, hq, hn, hr => by
+    simp only [run] at hr
+    cases hs : step s e with
+    | none => simp [hs] at hr
+    | some p =>
+      obtain ⟨s1, o⟩ := p
+      simp only [hs] at hr
+      cases hr2 : run s1 es with
+      | none => simp [hr2] at hr
+      | some q =>
+        obtain ⟨s2, os2⟩ := q
+        simp only [hr2] at hr
+        cases hr
+        obtain ⟨a, b⟩ := quiet_step hI hq hs (hn e (by simp))
+        have ih := quiet_run es mac s1 _ os2 (inv_step hI hs) a (fun e' he' => hn e' (by simp [he'])) hr2
+        simp [forgedCount, b, ih]
+
+/-- frames a loop writes -/
+def loopFrame : Out → Bool
+  | .forged _ => true
+  | .restoring _ => true
+  | _ => false
+
+/-- **after Close no loop writes anything**: no forged announcement and no restoring request, whatever
+    happens (a loop past its lookup holds the mutex Close needs, so none is when Close runs) -/
+theorem closed_step {s s' : State} {e : Event} {o : Out} (h : Inv s) (hc : s.closed = true)
+    (hs : step s e = some (s', o)) : s'.closed = true ∧ loopFrame o = false := by
+  cases e with
+  | rxOther => simp only [step] at hs; cases hs; exact ⟨hc, rfl⟩
+  | rxProbe a b c d => simp only [step] at hs; split at hs <;> (cases hs; exact ⟨hc, rfl⟩)
+  | close =>
+    simp only [step] at hs
+    split at hs
+    · cases hs; exact ⟨rfl, rfl⟩
+    · cases hs
+  | stopHunt m _ip =>
+    simp only [step] at hs
+    split at hs
+    · cases hs; exact ⟨hc, rfl⟩
+    · cases hs
+  | rxRequest _esrc smac tr =>
+    simp only [step] at hs
+    split at hs
+    · split at hs <;> (cases hs; exact ⟨hc, rfl⟩)
+    · cases hs
+  | reply smac =>
+    simp only [step] at hs
+    split at hs
+    · cases hs; exact ⟨hc, rfl⟩
+    · cases hs
+  | startHunt m v =>
+    simp only [step] at hs
+    split at hs
+    · cases hs; exact ⟨hc, rfl⟩
+    · split at hs
+      · cases hs
+      · split at hs <;> (cases hs; exact ⟨hc, rfl⟩)
+  | check i =>
+    simp only [step] at hs
+    split at hs
+    · cases hs; exact ⟨hc, rfl⟩
+    · cases hs
+  | restore i =>
+    simp only [step] at hs
+    split at hs
+    · rename_i hp; have := (h.restoreOK i hp).2.2; rw [hc] at this; cases this
+    · cases hs
+  | forge i =>
+    simp only [step] at hs
+    split at hs
+    · rename_i hp; have := (h.forgeOK i hp).2.2; rw [hc] at this; cases this
+    · cases hs
+  | wake i =>
+    simp only [step] at hs
+    split at hs
+    · cases hs; exact ⟨hc, rfl⟩
+    · cases hs
+
+theorem closed_run : ∀ (tr : List Event) (s s' : State) (os : List Out),
+    Inv s → s.closed = true → run s tr = some (s', os) → ∀ o ∈ os, loopFrame o = false
+  | [], _, _, _, _, _, hr => by simp [run] at hr; obtain ⟨_, rfl⟩ := hr; simp
+  | e :: es, s, s', os, hI, hc, hr => by
+    simp only [run] at hr
+    cases hs : step s e with
+    | none => simp [hs] at hr
+    | some p =>
+      obtain ⟨s1, o⟩ := p
+      simp only [hs] at hr
+      cases hr2 : run s1 es with
+      | none => simp [hr2] at hr
+      | some q =>
+        obtain ⟨s2, os2⟩ := q
+        simp only [hr2] at hr
+        cases hr
+        obtain ⟨a, b⟩ := closed_step hI hc hs
+        have ih := closed_run es s1 _ os2 (inv_step hI hs) a hr2
+        intro o' ho'
+        simp at ho'
+        rcases ho' with rfl | ho'
+        · exact b
+        · exact ih o' ho'
+
+/-! ### the restoring request of a stopped loop -/
 
 def forgesOf (i : Nat) : List Event → Nat
   | [] => 0
@@ -176,171 +561,100 @@ def restoresOf (i : Nat) : List Event → Nat
   | .restore j :: rest => (if j = i then 1 else 0) + restoresOf i rest
   | _ :: rest => restoresOf i rest
 
-/-- no StartHunt for `mac` that would be accepted -/
-def NoRestart (mac : Bytes) (tr : List Event) : Prop := ∀ e ∈ tr, e ≠ .startHunt mac true
+/-- restoring requests the loop may still write -/
+def restoreBudget (s : State) (i : Nat) : Nat :=
+  match (s.loops i).pc with
+  | .done => 0
+  | _ => 1
 
-/-- loop `i` cannot pass its check-and-gate: its MAC is not in the hunt list, or the handler is closed -/
-def Blocked (s : State) (i : Nat) : Prop := (s.loops i).mac ∉ s.hunt ∨ s.closed = true
-
-
-/-- what one step does to a blocked loop's budgets -/
+/-- what one step does to a stopped loop (its MAC is not in the hunt list) -/
 structure StepOK (s s' : State) (e : Event) (i : Nat) : Prop where
   idx : i < s'.nloops
   mac : (s'.loops i).mac = (s.loops i).mac
-  blocked : Blocked s' i
-  forge : forgeBudget s' i + (if e = .forge i then 1 else 0) ≤ forgeBudget s i
+  stopped : (s'.loops i).mac ∉ s'.hunt
+  noForge : e ≠ .forge i
   restore : restoreBudget s' i + (if e = .restore i then 1 else 0) ≤ restoreBudget s i
   restoreEq : s'.closed = false → restoreBudget s' i + (if e = .restore i then 1 else 0) = restoreBudget s i
 
-/-- a step that leaves loop `i`, the hunt list and `closed` alone -/
-theorem stepOK_frame {s s' : State} {e : Event} {i : Nat} (hi : i < s.nloops) (hb : Blocked s i)
-    (hl : s'.loops i = s.loops i) (hh : ∀ m, m ∈ s'.hunt → m ∈ s.hunt) (hc : s.closed = true → s'.closed = true)
-    (_hc' : s'.closed = true → s.closed = true ∨ e = .close)
-    (hn : s.nloops ≤ s'.nloops) (he1 : e ≠ .forge i) (he2 : e ≠ .restore i) : StepOK s s' e i := by
-  refine ⟨by omega, by rw [hl], ?_, ?_, ?_, ?_⟩
-  · unfold Blocked at hb ⊢
-    rw [hl]
-    rcases hb with hb | hb
-    · left; exact fun h => hb (hh _ h)
-    · right; exact hc hb
-  · simp only [he1, if_false, forgeBudget, hl]
-    split
-    · exact Nat.le_refl _
-    · split
-      · omega
-      · split
-        · rename_i h1 h2; exact absurd (hc h2) (by simpa using h1)
-        · exact Nat.le_refl _
-    · exact Nat.le_refl _
-  · simp only [he2, if_false, restoreBudget, hl]; exact Nat.le_refl _
-  · intro _; simp only [he2, if_false, restoreBudget, hl, Nat.add_zero]
-
-theorem blocked_step {s s' : State} {e : Event} {o : Out} (i : Nat) (hi : i < s.nloops)
-    (hb : Blocked s i) (hs : step s e = some (s', o)) (hn : e ≠ .startHunt (s.loops i).mac true) :
+theorem stopped_step {s s' : State} {e : Event} {o : Out} (h : Inv s) (i : Nat) (hi : i < s.nloops)
+    (hb : (s.loops i).mac ∉ s.hunt) (hs : step s e = some (s', o)) (hn : e ≠ .startHunt (s.loops i).mac true) :
     StepOK s s' e i := by
-  -- steps of another loop `j ≠ i`
-  have other : ∀ j pc, j ≠ i → s' = setPc s j pc → e ≠ .forge i → e ≠ .restore i → StepOK s s' e i := by
-    intro j pc hj he h1 h2
+  have hq := (quiet_step h hb hs hn).1
+  -- a step that leaves loop `i` alone
+  have frame : s'.loops i = s.loops i → s.nloops ≤ s'.nloops → e ≠ .forge i → e ≠ .restore i → StepOK s s' e i := by
+    intro hl hn' h1 h2
+    refine ⟨by omega, by rw [hl], by rw [hl]; exact hq, h1, ?_, ?_⟩
+    · simp [h2, restoreBudget, hl]
+    · intro _; simp [h2, restoreBudget, hl]
+  have other : ∀ j pc hd, j ≠ i → s' = { setPc s j pc with holder := hd } → e ≠ .forge i → e ≠ .restore i →
+      StepOK s s' e i := by
+    intro j pc hd hj he h1 h2
     subst he
-    exact stepOK_frame hi hb (setPc_other _ _ _ _ (fun h => hj h.symm)) (fun _ h => h) (fun h => h)
-      (fun h => Or.inl h) (Nat.le_refl _) h1 h2
-  have keep : ∀ (s'' : State), s''.loops = s.loops → (∀ m, m ∈ s''.hunt → m ∈ s.hunt) → s''.closed = s.closed →
-      s''.nloops = s.nloops → e ≠ .forge i → e ≠ .restore i → StepOK s s'' e i := by
-    intro s'' h1 h2 h3 h4 h5 h6
-    exact stepOK_frame hi hb (by rw [h1]) h2 (fun h => by rw [h3]; exact h) (fun h => Or.inl (by rw [← h3]; exact h))
-      (by rw [h4]; exact Nat.le_refl _) h5 h6
+    exact frame (setPc_other _ _ _ _ (fun h => hj h.symm)) (Nat.le_refl _) h1 h2
+  -- loop `i` itself moves to pc' (not through forge: its MAC is not hunted)
+  have self : ∀ pc' hd, s' = { setPc s i pc' with holder := hd } → e ≠ .forge i →
+      restoreBudget s' i + (if e = .restore i then 1 else 0) ≤ restoreBudget s i →
+      (s'.closed = false → restoreBudget s' i + (if e = .restore i then 1 else 0) = restoreBudget s i) →
+      StepOK s s' e i := by
+    intro pc' hd he h1 h2 h3
+    refine ⟨by subst he; exact hi, by subst he; exact setPc_mac _ _ _ _, ?_, h1, h2, h3⟩
+    have : (s'.loops i).mac = (s.loops i).mac := by subst he; exact setPc_mac _ _ _ _
+    rw [this]; exact hq
   cases e with
-  | rxOther =>
-    simp only [step] at hs; cases hs
-    exact keep _ rfl (fun _ h => h) rfl rfl (by simp) (by simp)
+  | rxOther => simp only [step] at hs; cases hs; exact frame rfl (Nat.le_refl _) (by simp) (by simp)
   | rxProbe a b c d =>
     simp only [step] at hs
-    split at hs <;> (cases hs; exact keep _ rfl (fun _ h => h) rfl rfl (by simp) (by simp))
+    split at hs <;> (cases hs; exact frame rfl (Nat.le_refl _) (by simp) (by simp))
   | rxRequest _e a b =>
     simp only [step] at hs
-    split at hs <;> (cases hs; exact keep _ rfl (fun _ h => h) rfl rfl (by simp) (by simp))
+    split at hs
+    · split at hs <;> (cases hs; exact frame rfl (Nat.le_refl _) (by simp) (by simp))
+    · cases hs
   | reply a =>
     simp only [step] at hs
     split at hs
-    · cases hs; exact keep _ rfl (fun _ h => h) rfl rfl (by simp) (by simp)
+    · cases hs; exact frame rfl (Nat.le_refl _) (by simp) (by simp)
     · cases hs
   | close =>
-    simp only [step] at hs; cases hs
-    exact stepOK_frame hi hb rfl (fun _ h => h) (fun _ => rfl) (fun _ => Or.inr rfl) (Nat.le_refl _) (by simp) (by simp)
+    simp only [step] at hs
+    split at hs
+    · cases hs; exact frame rfl (Nat.le_refl _) (by simp) (by simp)
+    · cases hs
   | stopHunt mac _ip =>
-    simp only [step] at hs; cases hs
-    exact keep _ rfl (fun _ h => List.mem_of_mem_erase h) rfl rfl (by simp) (by simp)
+    simp only [step] at hs
+    split at hs
+    · cases hs; exact frame rfl (Nat.le_refl _) (by simp) (by simp)
+    · cases hs
   | startHunt mac v =>
     simp only [step] at hs
     split at hs
-    · cases hs; exact keep _ rfl (fun _ h => h) rfl rfl (by simp) (by simp)
+    · cases hs; exact frame rfl (Nat.le_refl _) (by simp) (by simp)
     · split at hs
-      · cases hs; exact keep _ rfl (fun _ h => h) rfl rfl (by simp) (by simp)
-      · rename_i hv hnm
-        cases hs
-        have hne : i ≠ s.nloops := by omega
-        have hv' : v = true := by simpa using hv
-        subst hv'
-        have hmac : mac ≠ (s.loops i).mac := by
-          intro he; subst he; exact hn rfl
-        refine ⟨by simp; omega, by simp only [updLoop_other _ _ _ _ hne], ?_, ?_, ?_, ?_⟩
-        · unfold Blocked at hb ⊢
-          simp only [updLoop_other _ _ _ _ hne]
-          rcases hb with hb | hb
-          · left; intro hm; simp at hm
-            rcases hm with hm | hm
-            · exact hmac hm.symm
-            · exact hb hm
-          · right; exact hb
-        · simp [forgeBudget, updLoop_other _ _ _ _ hne]
-        · simp [restoreBudget, updLoop_other _ _ _ _ hne]
-        · intro _; simp [restoreBudget, updLoop_other _ _ _ _ hne]
+      · cases hs
+      · split at hs
+        · cases hs; exact frame rfl (Nat.le_refl _) (by simp) (by simp)
+        · cases hs
+          have hne : i ≠ s.nloops := by omega
+          exact frame (by simp only [updLoop_other _ _ _ _ hne]) (by simp) (by simp) (by simp)
   | check j =>
     simp only [step] at hs
     split at hs
-    · rename_i hc
-      cases hs
-      by_cases hji : j = i
-      · subst hji
-        refine ⟨hi, by simp, ?_, ?_, ?_, ?_⟩
-        · unfold Blocked at hb ⊢; simpa using hb
-        · simp only [forgeBudget, setPc_same, setPc_closed, hc]
-          have : (Event.check j = Event.forge j) = False := by simp
-          simp only [this, if_false]
-          unfold Blocked at hb
-          rcases hb with hb | hb
-          · simp [hb]
-          · simp only [hb, if_true]
-            cases decide ((s.loops j).mac ∈ s.hunt) <;> simp
-        · simp [restoreBudget, hc]
-        · intro _; simp [restoreBudget, hc]
-      · exact other j _ hji rfl (by simp) (by simp)
-    · cases hs
-  | gate j =>
-    simp only [step] at hs
-    split at hs
-    · rename_i b hc
+    · rename_i hcf
       by_cases hji : j = i
       · subst hji
         split at hs
-        · cases hs
-          refine ⟨hi, by simp, ?_, ?_, ?_, ?_⟩
-          · unfold Blocked at hb ⊢; simpa using hb
-          · simp [forgeBudget]
-          · simp [restoreBudget, hc]
-          · intro _; simp [restoreBudget, hc]
-        · rename_i hcond
-          cases hs
-          have hb' : b = true ∧ s.closed = false := by
-            cases b <;> cases hcl : s.closed <;> simp_all
-          refine ⟨hi, by simp, ?_, ?_, ?_, ?_⟩
-          · unfold Blocked at hb ⊢; simpa using hb
-          · simp [forgeBudget, hc, hb'.1, hb'.2]
-          · simp [restoreBudget, hc]
-          · intro _; simp [restoreBudget, hc]
-      · split at hs <;> (cases hs; exact other j _ hji rfl (by simp) (by simp))
-    · cases hs
-  | exitRead j =>
-    simp only [step] at hs
-    split at hs
-    · rename_i hc
-      by_cases hji : j = i
-      · subst hji
-        split at hs
-        · cases hs
-          refine ⟨hi, by simp, ?_, ?_, ?_, ?_⟩
-          · unfold Blocked at hb ⊢; simpa using hb
-          · simp [forgeBudget, hc]
-          · simp [restoreBudget, hc]
-          · intro _; simp [restoreBudget, hc]
         · rename_i hcl
           cases hs
-          refine ⟨hi, by simp, ?_, ?_, ?_, ?_⟩
-          · unfold Blocked at hb ⊢; simpa using hb
-          · simp [forgeBudget, hc]
-          · simp [restoreBudget, hc]
-          · intro hcf; simp at hcf; simp [hcf] at hcl
-      · split at hs <;> (cases hs; exact other j _ hji rfl (by simp) (by simp))
+          refine self .done s.holder rfl (by simp) ?_ ?_
+          · simp [restoreBudget]
+          · intro hc; simp at hc; rw [hc] at hcl; cases hcl
+        · cases hs
+          refine self .restore _ rfl (by simp) ?_ ?_
+          · simp [restoreBudget, hcf.1]
+          · intro _; simp [restoreBudget, hcf.1]
+      · split at hs
+        · cases hs; exact other j _ s.holder hji rfl (by simp) (by simp)
+        · split at hs <;> (cases hs; exact other j _ _ hji rfl (by simp) (by simp))
     · cases hs
   | restore j =>
     simp only [step] at hs
@@ -349,12 +663,10 @@ theorem blocked_step {s s' : State} {e : Event} {o : Out} (i : Nat) (hi : i < s.
       cases hs
       by_cases hji : j = i
       · subst hji
-        refine ⟨hi, by simp, ?_, ?_, ?_, ?_⟩
-        · unfold Blocked at hb ⊢; simpa using hb
-        · simp [forgeBudget, hc]
+        refine self .done _ rfl (by simp) ?_ ?_
         · simp [restoreBudget, hc]
         · intro _; simp [restoreBudget, hc]
-      · exact other j _ hji rfl (by simp) (by simp [hji])
+      · exact other j _ _ hji rfl (by simp) (by simp [hji])
     · cases hs
   | forge j =>
     simp only [step] at hs
@@ -362,13 +674,8 @@ theorem blocked_step {s s' : State} {e : Event} {o : Out} (i : Nat) (hi : i < s.
     · rename_i hc
       cases hs
       by_cases hji : j = i
-      · subst hji
-        refine ⟨hi, by simp, ?_, ?_, ?_, ?_⟩
-        · unfold Blocked at hb ⊢; simpa using hb
-        · simp [forgeBudget, hc]
-        · simp [restoreBudget, hc]
-        · intro _; simp [restoreBudget, hc]
-      · exact other j _ hji rfl (by simp [hji]) (by simp)
+      · subst hji; exact absurd (h.forgeOK j hc).2.1 hb
+      · exact other j _ _ hji rfl (by simp [hji]) (by simp)
     · cases hs
   | wake j =>
     simp only [step] at hs
@@ -377,12 +684,10 @@ theorem blocked_step {s s' : State} {e : Event} {o : Out} (i : Nat) (hi : i < s.
       cases hs
       by_cases hji : j = i
       · subst hji
-        refine ⟨hi, by simp, ?_, ?_, ?_, ?_⟩
-        · unfold Blocked at hb ⊢; simpa using hb
-        · simp [forgeBudget, hc]
+        refine self .check s.holder rfl (by simp) ?_ ?_
         · simp [restoreBudget, hc]
         · intro _; simp [restoreBudget, hc]
-      · exact other j _ hji rfl (by simp) (by simp)
+      · exact other j _ s.holder hji rfl (by simp) (by simp)
     · cases hs
 
 theorem closed_mono {s s' : State} {e : Event} {o : Out} (hs : step s e = some (s', o)) (hc : s'.closed = false) :
@@ -391,7 +696,7 @@ theorem closed_mono {s s' : State} {e : Event} {o : Out} (hs : step s e = some (
   | false => rfl
   | true =>
     have : s'.closed = true := by
-      cases e <;> simp only [step] at hs <;> (try split at hs) <;> (try split at hs) <;>
+      cases e <;> simp only [step] at hs <;> (try split at hs) <;> (try split at hs) <;> (try split at hs) <;>
         first | (cases hs; simp_all [setPc]) | cases hs
     rw [this] at hc; cases hc
 
@@ -413,17 +718,18 @@ theorem closed_mono_run : ∀ (tr : List Event) (s s' : State) (os : List Out), 
         cases hr
         exact closed_mono hs (closed_mono_run es s1 s' os2 hr2 hc)
 
-/-- **budgets over a whole continuation** -/
-theorem blocked_run : ∀ (tr : List Event) (s s' : State) (os : List Out) (i : Nat), i < s.nloops →
-    Blocked s i → NoRestart (s.loops i).mac tr → run s tr = some (s', os) →
-    forgesOf i tr ≤ forgeBudget s i ∧
+/-- **a stopped loop over a whole continuation**: no forged announcement, at most one restoring
+    request, exactly one once it has finished unless the handler was closed -/
+theorem stopped_run : ∀ (tr : List Event) (s s' : State) (os : List Out) (i : Nat), Inv s → i < s.nloops →
+    (s.loops i).mac ∉ s.hunt → NoRestart (s.loops i).mac tr → run s tr = some (s', os) →
+    forgesOf i tr = 0 ∧
     restoresOf i tr + restoreBudget s' i ≤ restoreBudget s i ∧
     (s'.closed = false → restoresOf i tr + restoreBudget s' i = restoreBudget s i)
-  | [], s, s', _, i, _, _, _, hr => by
+  | [], s, s', _, i, _, _, _, _, hr => by
     simp [run] at hr
     obtain ⟨rfl, _⟩ := hr
     simp [forgesOf, restoresOf]
-  | e :: es, s, s', os, i, hi, hb, hn, hr => by
+  | e :: es, s, s', os, i, hI, hi, hb, hn, hr => by
     simp only [run] at hr
     cases hs : step s e with
     | none => simp [hs] at hr
@@ -436,16 +742,15 @@ theorem blocked_run : ∀ (tr : List Event) (s s' : State) (os : List Out) (i : 
         obtain ⟨s2, os2⟩ := q
         simp only [hr2] at hr
         cases hr
-        have st := blocked_step i hi hb hs (hn e (by simp))
-        obtain ⟨ih1, ih2, ih3⟩ := blocked_run es s1 s' os2 i st.idx st.blocked (by
+        have st := stopped_step hI i hi hb hs (hn e (by simp))
+        obtain ⟨ih1, ih2, ih3⟩ := stopped_run es s1 s' os2 i (inv_step hI hs) st.idx st.stopped (by
           rw [st.mac]; intro e' he'; exact hn e' (by simp [he'])) hr2
-        have f := st.forge
         have r := st.restore
         have hF : forgesOf i (e :: es) = (if e = .forge i then 1 else 0) + forgesOf i es := by
           cases e <;> simp [forgesOf]
         have hR : restoresOf i (e :: es) = (if e = .restore i then 1 else 0) + restoresOf i es := by
           cases e <;> simp [restoresOf]
-        refine ⟨by rw [hF]; omega, by rw [hR]; omega, ?_⟩
+        refine ⟨by rw [hF, ih1]; simp [st.noForge], by rw [hR]; omega, ?_⟩
         intro hc
         have hc1 : s1.closed = false := closed_mono_run es s1 s' os2 hr2 hc
         have := st.restoreEq hc1
